@@ -139,6 +139,13 @@ class AORun(object):
           src['exc'] = type(ex).__name__
         src['threads'] = [t.name for t in self.sim.threads[before:] if t.role == 'timer']
         src['end'] = self.sim.seq
+      elif op == 'cancel_events':
+        # a handler cancels the timed sources of a signal (the usual way: on exit of the state that armed them)
+        b = self.sim.record('ao', 'op', 'begin', ('handler', 'cancel_events'))
+        rec = {'obj': oi, 'how': 'name', 'form': 'fresh', 'target': f['sig'], 'begin': b, 'end': None}
+        self.cancels.append(rec)
+        chart.cancel_events(ev.Event(signal=f['sig']))
+        rec['end'] = self.sim.seq
       elif op == 'stop':
         b = self.sim.record('ao', 'op', 'begin', ('handler', 'stop'))
         rec = {'obj': oi, 'begin': b, 'end': None, 'from': 'handler'}
